@@ -63,29 +63,44 @@ def one_call(spec):
             warm[jh.key(ex, s)] = {'exchange': ex, 'symbol': s, 'candles': np.array(w, dtype=float)}
     args = (cfg, routes, data_routes, candles, warm)
     before = fingerprint(args)
-    err, result = None, None
-    with E.Tap(log):
-        try:
-            result = research.backtest(cfg, routes, data_routes, candles, warmup_candles=warm, fast_mode=spec['fast'])
-        except Exception as e:
-            err = type(e).__name__ + ': ' + str(e)[:160]
+
+    def call():
+        del log[:]
+        err, result = None, None
+        with E.Tap(log):
+            try:
+                result = research.backtest(cfg, routes, data_routes, candles, warmup_candles=warm, fast_mode=spec['fast'])
+            except Exception as e:
+                err = type(e).__name__ + ': ' + str(e)[:160]
+        trace = [{k: v for k, v in e.items()} for e in log if e['k'] in ('hook', 'submit', 'reject', 'cancel', 'execute')]
+        return {'error': err, 'metrics': None if result is None else result.get('metrics'), 'trace_len': len(trace),
+                'trace_digest': hashlib.sha256(json.dumps(trace, sort_keys=True, default=str).encode()).hexdigest(),
+                'first_events': trace[:3], 'orders': sum(1 for e in trace if e['k'] == 'submit')}
+    summary = call()
     after = fingerprint(args)
-    trace = [{k: v for k, v in e.items()} for e in log if e['k'] in ('hook', 'submit', 'reject', 'cancel', 'execute')]
-    return {'error': err, 'metrics': None if result is None else result.get('metrics'), 'trace_len': len(trace),
-            'trace_digest': hashlib.sha256(json.dumps(trace, sort_keys=True, default=str).encode()).hexdigest(),
-            'first_events': trace[:3], 'orders': sum(1 for e in trace if e['k'] == 'submit')}, before != after
+    return summary, before != after, (args, before, call)
 
 
 def main():
     spec = json.load(open(sys.argv[1]))
-    out = {'history': [], 'probe': None, 'args_modified': []}
+    out = {'history': [], 'probe': None, 'args_modified': [], 'probe_again': None}
+    kept = []                                    # the argument objects of every call stay alive: a later call must not reach into them either
     for i, h in enumerate(spec['history']):
-        s, mod = one_call(h)
+        s, mod, keep = one_call(h)
+        kept.append(('history', i, keep))
         out['history'].append({'error': s['error'], 'orders': s['orders']})
         if mod: out['args_modified'].append(('history', i))
-    s, mod = one_call(spec['probe'])
+    s, mod, keep = one_call(spec['probe'])
+    kept.append(('probe', 0, keep))
     out['probe'] = s
     if mod: out['args_modified'].append(('probe', 0))
+    if spec.get('again'):
+        # the very same argument objects once more: equal arguments, equal result
+        s2 = keep[2]()
+        out['probe_again'] = s2
+    for (kind, i, (args, before, _)) in kept:
+        if fingerprint(args) != before and (kind, i) not in [tuple(x) for x in out['args_modified']]:
+            out['args_modified'].append((kind, i, 'by a later call'))
     print('C11RESULT ' + json.dumps(out, default=str))
 
 
